@@ -222,6 +222,11 @@ fn operand(shape: u8, out: &mut Vec<TK>) {
                 _ => out.extend([TK::Ident, TK::Dot, TK::LBrack, TK::Ident, TK::RBrack]),   // T.[a]
             }
         }
+        // redundant parentheses (the bytes 48..51): ( a )   ( ( a ) )   ( a + b )   ( ( a + b ) )
+        48 => out.extend([TK::LParen, TK::Ident, TK::RParen]),
+        49 => out.extend([TK::LParen, TK::LParen, TK::Ident, TK::RParen, TK::RParen]),
+        50 => out.extend([TK::LParen, TK::Ident, TK::Plus, TK::Ident, TK::RParen]),
+        51 => out.extend([TK::LParen, TK::LParen, TK::Ident, TK::Plus, TK::Ident, TK::RParen, TK::RParen]),
         _ => out.extend([TK::Int]),
     }
 }
@@ -243,20 +248,32 @@ fn operand_unary(shape: u8) -> u8 {
 /// exactly the spans an operator-precedence (shunting-yard) reading of the documented table gives
 #[no_mangle]
 pub unsafe extern "C" fn harness_prec(ops: *const u8, nops: usize, shapes: *const u8) -> u32 {
+    // bit 8 of `nops`: the expression is the condition of `x :: if E { a } else { a } ;` instead of `x :: E ;`
+    let as_condition = nops & 0x100 != 0;
+    let nops = nops & 0xff;
     let ops = slice::from_raw_parts(ops, nops);
     let shapes = slice::from_raw_parts(shapes, nops + 1);
     let mut kinds: Vec<TK> = vec![TK::Ident, TK::Colon, TK::Colon];
+    if as_condition { kinds.push(TK::If); }
     let mut operand_span: Vec<(u32, u32)> = Vec::new();
     let mut levels: Vec<u8> = Vec::new();
+    let mut inner_binary: Vec<(u32, u32)> = Vec::new();
     for i in 0..=nops {
         let start = kinds.len() as u32;
         operand(shapes[i], &mut kinds);
+        let end = kinds.len() as u32;
+        // the `a + b` inside the parentheses of shapes 50 / 51 is a BinaryExpr of its own
+        if shapes[i] == 50 { inner_binary.push(((start + 1) * 2, (end - 1) * 2)); }
+        if shapes[i] == 51 { inner_binary.push(((start + 2) * 2, (end - 2) * 2)); }
         operand_span.push((start * 2, kinds.len() as u32 * 2));
         if i < nops {
             let (k, l) = BINOPS[(ops[i] % 18) as usize];
             kinds.push(k);
             levels.push(l);
         }
+    }
+    if as_condition {
+        kinds.extend([TK::LBrace, TK::Ident, TK::RBrace, TK::Else, TK::LBrace, TK::Ident, TK::RBrace]);
     }
     kinds.push(TK::Semicolon);
     let n = kinds.len();
@@ -268,7 +285,7 @@ pub unsafe extern "C" fn harness_prec(ops: *const u8, nops: usize, shapes: *cons
     let r = check_parse(&parse, &text);
     if r != 0 { return r; }
     // expected spans: left-associative operator-precedence parse of the level sequence
-    let mut expected: Vec<(u32, u32)> = Vec::new();
+    let mut expected: Vec<(u32, u32)> = inner_binary;
     let mut vals: Vec<(u32, u32)> = vec![operand_span[0]];
     let mut opst: Vec<u8> = Vec::new();
     for i in 0..nops {
